@@ -828,7 +828,7 @@ func c04BuildBatch(gen string, b *c04Batch, rejected *[]*c04Inst, mu *sync.Mutex
 }
 
 // c04RunBatch runs the child over the batch; an instance that kills the child is recorded and skipped.
-func c04RunBatch(b *c04Batch, seed uint64, states int) error {
+func c04RunBatch(b *c04Batch, seed uint64, states int, cpu int) error {
 	plan := c04Plan{Seed: seed, States: states}
 	for i, in := range b.insts {
 		pi := in.plan
@@ -845,7 +845,7 @@ func c04RunBatch(b *c04Batch, seed uint64, states int) error {
 	}
 	start := 0
 	for start < len(b.insts) {
-		cmd := exec.Command(b.bin, planPath, itoa(start))
+		cmd := exec.Command(b.bin, planPath, itoa(start), itoa(cpu))
 		cmd.Env = append(os.Environ(), "GODEBUG=asyncpreemptoff=1", "GOMAXPROCS=2", "GOTRACEBACK=none")
 		var stderr bytes.Buffer
 		cmd.Stderr = &stderr
@@ -897,6 +897,36 @@ func c04RunBatch(b *c04Batch, seed uint64, states int) error {
 		}
 		b.insts[cur].status = "crashed: " + why
 		start = cur + 1
+	}
+	return nil
+}
+
+// c04OnlineCPUs lists the CPUs this process may run on (children are pinned one per CPU).
+func c04OnlineCPUs() []int {
+	data, err := os.ReadFile("/proc/self/status")
+	if err != nil {
+		return nil
+	}
+	for _, l := range strings.Split(string(data), "\n") {
+		if strings.HasPrefix(l, "Cpus_allowed_list:") {
+			var out []int
+			for _, part := range strings.Split(strings.TrimSpace(strings.TrimPrefix(l, "Cpus_allowed_list:")), ",") {
+				lo, hi, ok := strings.Cut(part, "-")
+				a, e1 := strconv.Atoi(lo)
+				b := a
+				var e2 error
+				if ok {
+					b, e2 = strconv.Atoi(hi)
+				}
+				if e1 != nil || e2 != nil {
+					return nil
+				}
+				for c := a; c <= b; c++ {
+					out = append(out, c)
+				}
+			}
+			return out
+		}
 	}
 	return nil
 }
@@ -1087,21 +1117,29 @@ func init() {
 		var rejected []*c04Inst
 		var mu sync.Mutex
 		var firstErr error
-		sem := make(chan struct{}, *jobs)
+		sem := make(chan int, *jobs)
+		ncpu := c04OnlineCPUs()
+		for i := 0; i < *jobs; i++ {
+			if len(ncpu) > 0 {
+				sem <- ncpu[i%len(ncpu)]
+			} else {
+				sem <- -1
+			}
+		}
 		var wg sync.WaitGroup
 		t0 := time.Now()
 		for _, b := range batches {
 			wg.Add(1)
 			go func(b *c04Batch) {
 				defer wg.Done()
-				sem <- struct{}{}
-				defer func() { <-sem }()
+				cpu := <-sem
+				defer func() { sem <- cpu }()
 				if len(b.insts) == 0 {
 					return
 				}
 				err := c04BuildBatch(gen, b, &rejected, &mu)
 				if err == nil {
-					err = c04RunBatch(b, *f.seed, *states)
+					err = c04RunBatch(b, *f.seed, *states, cpu)
 				}
 				if err != nil {
 					mu.Lock()
